@@ -1005,6 +1005,17 @@ def tables_inventory():
     return sorted(out)
 
 
+def tables_order_sources():
+    """the exposed (not `member`) order sources as the translator wrote them into Gen/Tables.v"""
+    tv = os.path.join(VERIF, "coq", "theories", "Gen", "Tables.v")
+    out = []
+    for line in open(tv, encoding="utf-8"):
+        m = re.match(r"\s*c13 order source: (\S+) (\S+) (\S+) \(line (\d+)\)\s*$", line)
+        if m and m.group(3) != "member":
+            out.append(" ".join(m.groups()))
+    return out
+
+
 # ================================================================== evaluation of one history
 class Lab:
     """runs histories: materialise once, then one worker process per (history, hash seed) + one fresh process"""
@@ -1062,6 +1073,67 @@ def shrink(lab, hist, key, seeds, budget=14):
         else:
             i += 1
     # a failure that does not need the observed call at all: try the shortest prefix
+    return hist
+
+
+def shrink_inputs(lab, hist, key, seeds, budget=16):
+    """generated workbooks (kind "sheets") made smaller while the same class of failure remains: fewer workbooks per call,
+    fewer content-index rows, fewer sheets, fewer rows per flow sheet (from the end: edges point backwards)"""
+    def fails(h):
+        bad, _ = lab.evaluate(h, seeds)
+        return any(b[0] == key for b in bad)
+
+    def attempt(h2):
+        nonlocal hist, budget
+        if budget <= 0:
+            return False
+        budget -= 1
+        if fails(h2):
+            hist = h2
+            return True
+        return False
+
+    import copy
+    # fewer workbooks per call
+    for oi, o in enumerate(hist["ops"]):
+        j = 0
+        while len(hist["ops"][oi].get("wbs", [])) > 1 and j < len(hist["ops"][oi]["wbs"]):
+            h2 = copy.deepcopy(hist)
+            gone = h2["ops"][oi]["wbs"].pop(j)
+            for o2 in h2["ops"]:
+                if o2 is not h2["ops"][oi] and gone in o2.get("wbs", []) and len(o2["wbs"]) > 1:
+                    o2["wbs"].remove(gone)
+            if not attempt(h2):
+                j += 1
+    used = {k for o in hist["ops"] for k in o.get("wbs", []) + [o.get("wb"), o.get("file")] if k}
+    hist = dict(hist, inputs={k: v for k, v in hist["inputs"].items() if k in used})
+    for key_in, spec in list(hist["inputs"].items()):
+        if spec["kind"] != "sheets" or "content_index" not in spec["sheets"]:
+            continue
+        # fewer index rows
+        i = len(hist["inputs"][key_in]["sheets"]["content_index"][1]) - 1
+        while i >= 0 and budget > 0:
+            h2 = copy.deepcopy(hist)
+            del h2["inputs"][key_in]["sheets"]["content_index"][1][i]
+            attempt(h2)
+            i -= 1
+        # fewer sheets
+        for nm in list(hist["inputs"][key_in]["sheets"]):
+            if nm != "content_index" and budget > 0:
+                h2 = copy.deepcopy(hist)
+                del h2["inputs"][key_in]["sheets"][nm]
+                attempt(h2)
+        # shorter flow sheets
+        for nm in list(hist["inputs"][key_in]["sheets"]):
+            rows = hist["inputs"][key_in]["sheets"][nm][1]
+            if nm != "content_index" and "type" in hist["inputs"][key_in]["sheets"][nm][0] and "row_id" in hist["inputs"][key_in]["sheets"][nm][0]:
+                n = len(rows)
+                while n > 1 and budget > 0:
+                    n = n // 2
+                    h2 = copy.deepcopy(hist)
+                    h2["inputs"][key_in]["sheets"][nm][1] = h2["inputs"][key_in]["sheets"][nm][1][:n]
+                    if not attempt(h2):
+                        break
     return hist
 
 
@@ -1132,7 +1204,7 @@ def run(ctx):
     # the hash-order stream: list-rich inputs (repeated and near-duplicate entries in every list-valued feature)
     lstats = ctx.stats.setdefault("hash_order_stream", {"cases": 0, "features": {}, "shape": {}, "outcomes": {}})
     lg = c13_lists.ListGen(ctx.rng, lstats["features"])
-    n_list = (60 if thorough else 24) * ctx.scale
+    n_list = (60 if thorough else 20) * ctx.scale
     lists = [list_history(ctx.rng, lg, lstats["shape"]) for _ in range(n_list)]
     lstats["cases"] = len(lists)
     # interleaved, so that a time limit or an early exit does not starve one stream
@@ -1147,7 +1219,9 @@ def run(ctx):
     nontrivial = set()
     inv_live = None
     try:
-        jobs = [lab.submit(h) for h in hists]
+        # thorough: the hash-order stream runs under 12 of the 32 seeds (4 fixed, 7 drawn, "random"): ~10 % of the budget
+        lseeds = seeds if not thorough else seeds[:4] + seeds[-8:]
+        jobs = [lab.submit(h, lseeds if h.get("stream") == "lists" else None) for h in hists]
         for job in jobs:
             hist = job["hist"]
             runs, fresh = lab.collect(job)
@@ -1167,8 +1241,8 @@ def run(ctx):
             wk = "worker_seconds:" + hist.get("stream", "histories")
             ostats[wk] = round(ostats.get(wk, 0) + sum(r.get("wall", 0) for r in list(runs.values()) + [fresh]), 1)
             ostats["fresh_comparisons"] += 1
-            ostats["seed_comparisons"] += (len(seeds) - 1) * len(base)
-            v.coverage["evaluations"] += len(base) * len(seeds) + 1
+            ostats["seed_comparisons"] += (len(runs) - 1) * len(base)
+            v.coverage["evaluations"] += len(base) * len(runs) + 1
             if len({r["status"] for r in base}) > 1 and len({o["op"] for o in hist["ops"]}) > 1:
                 nontrivial.add(json.dumps([[o["op"], r["status"]] for o, r in zip(hist["ops"], base)]))
             if inv_live is None and runs[seeds[0]].get("inventory") is not None:
@@ -1187,6 +1261,8 @@ def run(ctx):
                 small = hist
                 if key != RENDER_COMPLETES and v.viol_by_key.get(key, 0) < 2 and not any(k["key"] == key for k in v.known):
                     small = shrink(lab, hist, key, seeds[:2] if key != "hashseed-dependent-output" else seeds)
+                    if any(i["kind"] == "sheets" for i in small["inputs"].values()):
+                        small = shrink_inputs(lab, small, key, seeds[:2] if key != "hashseed-dependent-output" else seeds)
                     again, _ = lab.evaluate(small, seeds)
                     summary = next((s for k2, s in again if k2 == key), summary)
                 v.failing_input(key, summary, dict(fn="history", ops=small["ops"], inputs=small["inputs"], seeds=seeds, key=key))
@@ -1196,9 +1272,10 @@ def run(ctx):
     if ctx.model:
         tagmatcher_correspondence(ctx, cstats)
         flags = parse_sexp(ctx.model.ask("(113 3)"))
-        cstats["inventory_okb"], cstats["handler_discipline_okb"] = flags
-        if flags != [1, 1]:
-            ctx.disagree("regenerated inventory / handler discipline no longer what the model covers", None, flags, [1, 1])
+        cstats["inventory_okb"], cstats["handler_discipline_okb"], cstats["order_sources_okb"] = (flags + [None, None, None])[:3]
+        if flags != [1, 1, 1]:
+            ctx.disagree("regenerated inventory / handler discipline / order sources (sets, directory enumerations, id, hash, clocks, "
+                         "random) no longer what the model covers", dict(order_sources_exposed=tables_order_sources()), flags, [1, 1, 1])
     if inv_live is not None:
         tab = tables_inventory()
         cstats["mutable_defaults_live"] = len(inv_live)
@@ -1213,7 +1290,7 @@ def run(ctx):
         "filters incl. the default argument and invalid ones; each history runs under every PYTHONHASHSEED of the tier plus one fresh "
         "process for its observed (last) call; an evaluation = one call in one process with its hidden-state reading, or one fresh-process "
         "comparison; non-trivial = distinct (call kind, outcome) sequence with at least two kinds and two outcomes.  HASH-ORDER stream "
-        "(24 cases quick / 60 thorough, same processes and comparisons): 1..3 workbooks per call with sheets of equal names, every list-valued "
+        "(20 cases quick / 60 thorough, same processes and comparisons): 1..3 workbooks per call with sheets of equal names, every list-valued "
         "feature (choices literal and templated from data rows whose columns coincide, attachments, groups, webhook headers, airtime amounts, "
         "loop lists, tests and category names of a router, template arguments, index tags, repeated create_flow rows, data rows with equal / "
         "near-equal IDs, concat / sort with ties / filter, trigger keywords and groups, campaigns) filled from tiny pools so that repeated and "
